@@ -105,6 +105,80 @@ def run(ctx):
         if pa[0] != "ok" or pb[0] != "ok" or [int(v) for v in pa[1]] != [int((50 - v) // 2) for v in pb[1]]:
             ctx.violation("oracle", {"call": "permute_within_groups", "group": grp.tolist(), "seed": seed,
                                      "issue": "the same seed gives different within-group rearrangements for different data values"}, site="permute_within_groups")
+    # ---- named statistics see the rearrangements a callable sees under the same seed: the arrays recorded by a callable are
+    #      fed to an exact evaluation of the named statistic and compared with the dist the named statistic returned
+    from fractions import Fraction as Fr
+    def fmean(v):
+        return sum(Fr(t) for t in v) / len(v)
+    for _ in range(ctx.n(80, 1000)):
+        seed = ctx.rng.randint(0, 2**31); reps = ctx.rng.randint(1, 6)
+        which = ctx.rng.choice(["strat2:mean", "strat2:mean_within_strata", "strat2:mean_within_strata", "two_sample:mean", "k_sample:anova", "stratperm:mean"])
+        group, cond = rt.strat_design(ctx.rng); n = len(group)
+        if which in ("strat2:mean_within_strata", "stratperm:mean"):
+            # every stratum holds both conditions under every rearrangement of the responses / labels: two of each
+            group, cond = [], []
+            for k_ in ctx.rng.sample([1, 2, 3, 5], ctx.rng.randint(2, 3)):
+                sz = ctx.rng.randint(2, 4); group += [k_] * (sz + 2); cond += [0, 1] + [ctx.rng.randint(0, 1) for _ in range(sz)]
+            idx = list(range(len(group))); ctx.rng.shuffle(idx); group = [group[i] for i in idx]; cond = [cond[i] for i in idx]; n = len(group)
+            if which == "stratperm:mean":
+                for k_ in set(group):       # both conditions at least twice in each stratum so every cell stays non-empty
+                    ii = [i for i in range(n) if group[i] == k_]
+                    cond[ii[0]] = 0; cond[ii[1]] = 1
+        resp = ctx.rng.sample(range(-20, 60), n); resp = [float(v) for v in resp]       # distinct values
+        ga, ca, ra_ = np.array(group), np.array(cond), np.array(resp)
+        seen = []
+        det = {"call": which, "group": group, "condition": cond, "response": resp, "seed": seed, "reps": reps}
+        ctx.case(("named-vs-callable", which, tuple(group), tuple(cond), tuple(resp), seed, reps), True); ctx.count("named-statistic-shares-rearrangements:" + which)
+        if which.startswith("strat2"):
+            stat = which.split(":")[1]
+            rc_ = guarded(stratified.stratified_two_sample, ga, ca, ra_, stat=lambda u: (seen.append(np.array(u).copy()), 0.0)[1], reps=reps, seed=seed, keep_dist=True)
+            rn = guarded(stratified.stratified_two_sample, ga, ca, ra_, stat=stat, reps=reps, seed=seed, keep_dist=True)
+            o = [int(i) for i in ca.argsort()]; g_o = [group[i] for i in o]; c_o = [cond[i] for i in o]; nt = sum(1 for c_ in cond if c_ == c_o[0])
+            if stat == "mean":
+                ex = lambda u: fmean(u[:nt]) - fmean(u[nt:])
+            else:
+                def ex(u):
+                    tot = Fr(0)
+                    for k_ in sorted(set(g_o)):
+                        m0 = fmean([u[i] for i in range(n) if g_o[i] == k_ and c_o[i] == 0]); m1 = fmean([u[i] for i in range(n) if g_o[i] == k_ and c_o[i] == 1])
+                        tot += abs(m0 - m1)
+                    return tot
+        elif which == "two_sample:mean":
+            nx = max(1, min(n - 1, cond.count(0)))
+            rc_ = guarded(core.two_sample, ra_[:nx], ra_[nx:], stat=lambda u, v: (seen.append(np.concatenate([u, v])), 0.0)[1], reps=reps, seed=seed, keep_dist=True)
+            rn = guarded(core.two_sample, ra_[:nx], ra_[nx:], stat="mean", reps=reps, seed=seed, keep_dist=True)
+            ex = lambda u: fmean(u[:nx]) - fmean(u[nx:])
+        elif which == "k_sample:anova":
+            rc_ = guarded(ksample.k_sample, ra_, ga, stat=lambda x_, g_, xb: (seen.append(np.array(g_).copy()), 0.0)[1], reps=reps, seed=seed, keep_dist=True)
+            rn = guarded(ksample.k_sample, ra_, ga, stat="one-way anova", reps=reps, seed=seed, keep_dist=True)
+            xb = fmean(resp)
+            def ex(g_):
+                tot = Fr(0)
+                for k_ in sorted(set(int(v) for v in g_)):
+                    vals = [resp[i] for i in range(n) if int(g_[i]) == k_]
+                    tot += (fmean(vals) - xb) ** 2 * len(vals)
+                return tot
+        else:
+            rc_ = guarded(stratified.stratified_permutationtest, ga, ca, ra_, testStatistic=lambda c_: (seen.append(np.array(c_).copy()), 0.0)[1], reps=reps, seed=seed)
+            rn = guarded(stratified.stratified_permutationtest, ga, ca, ra_, testStatistic="mean", reps=reps, seed=seed)
+            def ex(c_):
+                tot = Fr(0)
+                for k_ in sorted(set(group)):
+                    m0 = fmean([resp[i] for i in range(n) if group[i] == k_ and int(c_[i]) == 0]); m1 = fmean([resp[i] for i in range(n) if group[i] == k_ and int(c_[i]) == 1])
+                    tot += abs(m0 - m1)
+                return tot
+        if rc_[0] != "ok" or rn[0] != "ok" or len(seen) < reps + 1:
+            det.update({"issue": "call failed or the callable was evaluated fewer times than once per repetition plus once", "callable": str(rc_)[:200], "named": str(rn)[:200], "evaluations": len(seen)})
+            ctx.violation("oracle", det, site=which.split(":")[0]); continue
+        try:
+            want = [ex([float(t) for t in a_] if not which.startswith(("k_sample", "stratperm")) else a_) for a_ in seen[-reps:]]
+        except ZeroDivisionError:
+            ctx.count("skipped-empty-cell"); continue
+        dist = list(rn[1][2])
+        if len(dist) != reps or any(abs(float(a) - float(b)) > 1e-9 * max(1.0, abs(float(b))) for a, b in zip(dist, want)):
+            det.update({"issue": "under one seed the named statistic was evaluated on other rearrangements than a callable receives (the rearrangement depends on the statistic)",
+                        "named_dist": [float(v) for v in dist][:6], "statistic_on_the_callables_arrays": [float(v) for v in want][:6]})
+            ctx.violation("oracle", det, site=which.split(":")[0])
     # ---- other seeded entry points
     for _ in range(ctx.n(60, 800)):
         seed = ctx.rng.randint(0, 2**31)
